@@ -552,10 +552,66 @@ AbelianFails(ev, pre) ==
     [] OTHER -> {}
 
 
+
+---------------------------------------------------------------------------
+\* C17: group laws evaluated directly on the recorded answers of the real symmetry
+\* objects (L1), and agreement with the Charges module (reported as drift, L2)
+Idx(t, c) == CHOOSE i \in 1..Len(t.charges) : t.charges[i] = c
+InBox(t, c) == \E i \in 1..Len(t.charges) : t.charges[i] = c
+PairsFails(t) ==
+  LET n == Len(t.charges)
+      I == 1..n
+  IN F(\A i, j \in I : t.comb[i][j] = t.comb[j][i], "C17.commutative")
+     \cup F(\A i \in I : InBox(t, t.ident) /\ t.comb[Idx(t, t.ident)][i] = t.charges[i] /\ t.comb1[i] = t.charges[i], "C17.identity")
+     \cup F(\A i \in I : t.neg_valid[i], "C17.negation_valid")
+     \cup F(\A i \in I : t.comb_neg[i] = t.ident, "C17.inverse")
+     \cup F(\A i \in I : InBox(t, t.neg[i]) => t.comb[i][Idx(t, t.neg[i])] = t.ident, "C17.inverse.table")
+     \cup F(\A i, j \in I : t.par_comb[i][j] = (t.par[i] + t.par[j]) % 2, "C17.parity_homomorphism")
+     \cup F(\A i \in I : t.par[i] \in {0, 1} /\ t.valid[i], "C17.parity_range")
+     \cup F(\A i \in I : t.sign_nd[i] = t.charges[i], "C17.sign_identity")
+PairsDrift(t) ==
+  LET I == 1..Len(t.charges) IN
+  F(\A i, j \in I : t.comb[i][j] = Combine(t.sym, t.charges[i], t.charges[j]), "L2.combine")
+  \cup F(\A i \in I : t.neg[i] = Neg(t.sym, t.charges[i]), "L2.neg")
+  \cup F(\A i \in I : t.par[i] = Parity(t.sym, t.charges[i]), "L2.parity")
+  \cup F(t.ident = Zero, "L2.identity")
+AssocFails(t) ==
+  LET I == 1..Len(t.charges) IN
+  F(\A i, j \in I : t.l[i][j] = t.r[i][j], "C17.associative")
+  \cup F(\A i, j \in I : t.v[i][j] = t.l[i][j], "C17.associative.varargs")
+AssocDrift(t) ==
+  LET I == 1..Len(t.charges) IN
+  F(\A i, j \in I : t.l[i][j] = Combine(t.sym, Combine(t.sym, t.a, t.charges[i]), t.charges[j]), "L2.combine3")
+
+\* all tuples over a sequence of charge lists
+RECURSIVE Tuples(_)
+Tuples(lists) ==
+  IF lists = <<>> THEN {<<>>}
+  ELSE {<<c>> \o rest : c \in SeqRange(Head(lists)), rest \in Tuples(Tail(lists))}
+SectorsFails(t, ev) ==
+  LET duals == [i \in 1..Len(t.ix) |-> t.ix[i].dual]
+      want == {s \in Tuples([i \in 1..Len(t.ix) |-> t.ix[i].charges]) : SignedCombine(t.sym, s, duals) = t.charge}
+      got == t.sectors
+  IN IF ev.outcome = "raise" THEN {"C17.sectors.raises"}
+     ELSE F(\A i, j \in 1..Len(got) : i # j => got[i] # got[j], "C17.sectors.repeated")
+          \cup F(SeqRange(got) \subseteq want, "C17.sectors.extra")
+          \cup F(want \subseteq SeqRange(got), "C17.sectors.missing")
+TableFails(ev) ==
+  LET t == ev.regs.tab IN
+  CASE ev.op = "group_pairs" -> PairsFails(t)
+    [] ev.op = "group_assoc" -> AssocFails(t)
+    [] ev.op = "sectors" -> SectorsFails(t, ev)
+TableDrift(ev) ==
+  LET t == ev.regs.tab IN
+  CASE ev.op = "group_pairs" -> PairsDrift(t)
+    [] ev.op = "group_assoc" -> AssocDrift(t)
+    [] OTHER -> {}
+
 ---------------------------------------------------------------------------
 OpFails(ev, pre) ==
-  IF ev.op = "init" \/ ev.in = <<>> THEN {}
+  IF ev.op \in {"group_pairs", "group_assoc", "sectors"} THEN TableFails(ev)
   ELSE IF ev.op = "rel" THEN PseudoFails(ev, pre)
+  ELSE IF ev.op = "init" \/ ev.in = <<>> THEN {}
   ELSE IF ev.op = "fuse" THEN FuseEv(ev, pre)
   ELSE IF ev.op = "unfuse" THEN UnfuseEv(ev, pre)
   ELSE IF ev.op = "reshape" THEN ReshapeEv(ev, pre)
@@ -571,6 +627,7 @@ EventFails(ev, pre) ==
   \cup DtypeFails(ev, pre)
   \cup OpFails(ev, pre)
 
-EventDrift(ev, pre) == {}
+EventDrift(ev, pre) ==
+  IF ev.op \in {"group_pairs", "group_assoc", "sectors"} THEN TableDrift(ev) ELSE {}
 
 =============================================================================
